@@ -38,5 +38,21 @@ func (*Streamsql).EmitSync
   before ProcessSync the-row-given-is-what-the-stream-gets: $arg1 == data && (old(s.schemaValidator) == nil || $bad == nil)
   atreturn the-streams-answer-is-the-answer: $handed == 1 ==> result0 == $answer && result1 == $answerErr
   atreturn at-most-one-processing-per-call: $handed <= 1
+
+// table rows and upserts are handed to the stream as they are: exactly the rows given, in the order given, under the key
+// columns given (or those the JOIN names); nothing is added, dropped or padded on the way
+func (*Streamsql).RegisterTable
+  props C16 C05 C20
+  modifies *
+  observe derived := JoinKeyFields
+  observe derr := JoinKeyFields#1
+  before JoinKeyFields the-key-columns-are-derived-for-this-very-table: $arg1 == name
+  before RegisterMemoryTable the-table-gets-exactly-the-rows-given: $arg1 == name && len($arg3) == len(rows) && forall(j, 0, len(rows), $arg3[j] == rows[j]) && seqeq($arg2, ite(len(keyFields) == 0, $derived, keyFields))
+  atreturn key-columns-that-cannot-be-derived-are-an-error: len(keyFields) == 0 && $derr != nil ==> result1 != nil
+
+func (*Streamsql).UpsertTable
+  props C16 C05 C20
+  modifies *
+  before UpsertTableRow the-row-given-is-upserted-into-the-table-named: $arg1 == name && $arg2 == row
 @*/
 
